@@ -562,6 +562,12 @@ class Tensor:
             return self
         return Tensor(np.ascontiguousarray(self.a), self.dtype)
 
+    def new_zeros(self, *shape, dtype=None, device=None):
+        return zeros(*shape, dtype=dtype or self.dtype)
+
+    def new_ones(self, *shape, dtype=None, device=None):
+        return ones(*shape, dtype=dtype or self.dtype)
+
     def requires_grad_(self, flag=True):
         self.requires_grad = flag
         return self
